@@ -234,7 +234,7 @@ Section Proofs.
     = if memZ f feats then dict_set f (fmask cur f) bf else bf.
   Proof.
     unfold box_one, fmask, spec_feat. destruct (memZ f feats); [|reflexivity].
-    destruct (lookup f cur) as [[lo hi]|]; [|reflexivity].
+    destruct (rget cur f) as [[lo|] [hi|]]; try reflexivity.
     destruct (fne lo hi); [|reflexivity].
     rewrite box_mask_spec. unfold C03.col. now rewrite map_map.
   Qed.
@@ -242,29 +242,32 @@ Section Proofs.
   (* ---- which features are refiltered (repaired code) -------------------- *)
   Lemma In_changed_keys cur old f :
     In f (changed_keys cur old) <->
-    exists lo hi, In (f, (lo, hi)) cur /\
-                  match lookup f old with
-                  | None => True
-                  | Some (lo', hi') => fne lo lo' || fne hi hi' = true
-                  end.
+    exists mn mx, In (f, (mn, mx)) cur /\
+                  key_changed mn (fst (rget old f))
+                  || key_changed mx (snd (rget old f)) = true.
   Proof.
     unfold changed_keys. rewrite in_flat_map. split.
-    - intros [[f' [lo hi]] [Hin Hf]].
-      destruct (lookup f' old) as [[lo' hi']|] eqn:El.
-      + destruct (fne lo lo' || fne hi hi') eqn:E; [|destruct Hf].
-        destruct Hf as [<-|[]]. exists lo, hi. split; [assumption|]. now rewrite El.
-      + destruct Hf as [<-|[]]. exists lo, hi. split; [assumption|]. now rewrite El.
-    - intros [lo [hi [Hin Hm]]]. exists (f, (lo, hi)). split; [assumption|].
-      destruct (lookup f old) as [[lo' hi']|]; [rewrite Hm|]; now left.
+    - intros [[f' [mn mx]] [Hin Hf]].
+      destruct (key_changed mn (fst (rget old f'))
+                || key_changed mx (snd (rget old f'))) eqn:E; [|destruct Hf].
+      destruct Hf as [<-|[]]. exists mn, mx. now split.
+    - intros [mn [mx [Hin Hm]]]. exists (f, (mn, mx)). split; [assumption|].
+      rewrite Hm. now left.
   Qed.
 
   Lemma In_removed_keys cur old f :
-    In f (removed_keys cur old) <-> In f (map fst old) /\ lookup f cur = None.
+    In f (removed_keys cur old) <->
+    exists mn mx, In (f, (mn, mx)) old /\
+                  key_removed mn (fst (rget cur f))
+                  || key_removed mx (snd (rget cur f)) = true.
   Proof.
-    unfold removed_keys. rewrite in_flat_map, in_map_iff. split.
-    - intros [e [Hin Hf]]. destruct (lookup (fst e) cur) eqn:El; [destruct Hf|].
-      destruct Hf as [<-|[]]. split; [now exists e|assumption].
-    - intros [[e [<- Hin]] Hl]. exists e. split; [assumption|]. rewrite Hl. now left.
+    unfold removed_keys. rewrite in_flat_map. split.
+    - intros [[f' [mn mx]] [Hin Hf]].
+      destruct (key_removed mn (fst (rget cur f'))
+                || key_removed mx (snd (rget cur f'))) eqn:E; [|destruct Hf].
+      destruct Hf as [<-|[]]. exists mn, mx. now split.
+    - intros [mn [mx [Hin Hm]]]. exists (f, (mn, mx)). split; [assumption|].
+      rewrite Hm. now left.
   Qed.
 
   Lemma In_feat2filter cur old force f :
@@ -272,41 +275,76 @@ Section Proofs.
     In f (changed_keys cur old) \/ In f (removed_keys cur old) \/ In f force.
   Proof. unfold feat2filter. now rewrite nodup_In, !in_app_iff. Qed.
 
-  (* a feature that is not refiltered has the same range as at the previous
+  Lemma rget_In rg f : rget rg f = (None, None) \/ In (f, rget rg f) rg.
+  Proof.
+    unfold rget. destruct (lookup f rg) as [p|] eqn:E; [right|now left].
+    now apply lookup_In.
+  Qed.
+
+  Lemma key_same c o :
+    key_changed c o = false -> key_removed o c = false ->
+    c = o \/ (exists a b, c = Some a /\ o = Some b /\ feq a b = true).
+  Proof.
+    destruct c as [a|], o as [b|]; cbn; try discriminate; auto.
+    unfold fne. intros H _. apply negb_false_iff in H. right. eauto.
+  Qed.
+
+  (* a feature that is not refiltered has the same keys as at the previous
      application, hence the same mask *)
+  Lemma unchanged_rget cur old f :
+    ~ In f (changed_keys cur old) -> ~ In f (removed_keys cur old) ->
+    rget cur f = rget old f.
+  Proof.
+    intros Hc Hr.
+    assert (key_changed (fst (rget cur f)) (fst (rget old f))
+            || key_changed (snd (rget cur f)) (snd (rget old f)) = false) as H1.
+    { destruct (rget_In cur f) as [E|Hin]; [now rewrite E|].
+      destruct (key_changed (fst (rget cur f)) (fst (rget old f))
+                || key_changed (snd (rget cur f)) (snd (rget old f))) eqn:E;
+        [|reflexivity]. exfalso. apply Hc.
+      apply In_changed_keys. destruct (rget cur f) as [mn mx]. now exists mn, mx. }
+    assert (key_removed (fst (rget old f)) (fst (rget cur f))
+            || key_removed (snd (rget old f)) (snd (rget cur f)) = false) as H2.
+    { destruct (rget_In old f) as [E|Hin]; [now rewrite E|].
+      destruct (key_removed (fst (rget old f)) (fst (rget cur f))
+                || key_removed (snd (rget old f)) (snd (rget cur f))) eqn:E;
+        [|reflexivity]. exfalso. apply Hr.
+      apply In_removed_keys. destruct (rget old f) as [mn mx]. now exists mn, mx. }
+    apply orb_false_iff in H1, H2. destruct H1 as [H1a H1b], H2 as [H2a H2b].
+    destruct (rget cur f) as [mn mx], (rget old f) as [omn omx]. cbn in *.
+    f_equal.
+    - destruct (key_same _ _ H1a H2a) as [E|[a [b [-> [-> E]]]]]; [assumption|].
+      apply feq_true in E. now subst.
+    - destruct (key_same _ _ H1b H2b) as [E|[a [b [-> [-> E]]]]]; [assumption|].
+      apply feq_true in E. now subst.
+  Qed.
+
   Lemma unchanged_spec_feat cur old f :
     ~ In f (changed_keys cur old) -> ~ In f (removed_keys cur old) ->
     forall r, spec_feat cur f r = spec_feat old f r.
   Proof.
-    intros Hc Hr r. unfold spec_feat.
-    destruct (lookup f cur) as [[lo hi]|] eqn:Ec.
-    - destruct (lookup f old) as [[lo' hi']|] eqn:Eo.
-      + destruct (fne lo lo' || fne hi hi') eqn:E.
-        * exfalso. apply Hc. apply In_changed_keys. exists lo, hi.
-          split; [now apply lookup_In|]. now rewrite Eo.
-        * apply orb_false_iff in E. destruct E as [E1 E2].
-          unfold fne in E1, E2. apply negb_false_iff in E1, E2.
-          apply feq_true in E1, E2. now subst.
-      + exfalso. apply Hc. apply In_changed_keys. exists lo, hi.
-        split; [now apply lookup_In|]. now rewrite Eo.
-    - destruct (lookup f old) as [[lo' hi']|] eqn:Eo; [|reflexivity].
-      exfalso. apply Hr. apply In_removed_keys. split; [|assumption].
-      apply lookup_In in Eo. apply in_map_iff. now exists (f, (lo', hi')).
+    intros Hc Hr r. unfold spec_feat. now rewrite (unchanged_rget cur old f Hc Hr).
   Qed.
 
-  Lemma unchanged_has_old cur old f :
-    ~ In f (changed_keys cur old) -> lookup f cur <> None -> lookup f old <> None.
+  (* a half-set range is always noticed: at the previous (successful)
+     application no range was half-set *)
+  Lemma half_set_changed cur old f :
+    half_set old f = false -> half_set cur f = true ->
+    In f (changed_keys cur old) \/ In f (removed_keys cur old).
   Proof.
-    intros Hc Hl Ho. apply Hc. apply In_changed_keys.
-    destruct (lookup f cur) as [[lo hi]|] eqn:Ec; [|congruence].
-    exists lo, hi. split; [now apply lookup_In|]. now rewrite Ho.
+    intros Ho Hh.
+    destruct (in_dec Z.eq_dec f (changed_keys cur old)) as [H|Hc]; [now left|].
+    destruct (in_dec Z.eq_dec f (removed_keys cur old)) as [H|Hr]; [now right|].
+    exfalso. unfold half_set in *. rewrite (unchanged_rget cur old f Hc Hr) in Hh.
+    congruence.
   Qed.
 
   (* ---- the box cache ------------------------------------------------------ *)
   Definition BoxInv (bf : list (Z * list bool)) (rg : ranges) : Prop :=
     forall f m, In (f, m) bf -> In f feats /\ m = fmask rg f.
   Definition BoxCov (bf : list (Z * list bool)) (rg : ranges) : Prop :=
-    forall f, In f feats -> lookup f rg <> None -> has_key f bf = true.
+    forall f, In f feats -> has_key f bf = false ->
+              forall r, spec_feat rg f r = true.
 
   Lemma fold_box_In cur F : forall bf0 f m,
     (forall f m, In (f, m) bf0 -> In f feats) ->
@@ -359,12 +397,12 @@ Section Proofs.
         rewrite In_feat2filter in Hni. unfold fmask. apply map_ext. intros r.
         symmetry. apply unchanged_spec_feat; intuition.
       + intros f' m' Hin'. now apply HI in Hin'.
-    - intros f Hf Hl. unfold bf. rewrite fold_box_keys.
-      destruct (memZ f (feat2filter true cur old force)) eqn:E.
-      + apply memZ_In in Hf. rewrite Hf. now rewrite orb_true_r.
-      + apply memZ_false in E. rewrite In_feat2filter in E.
-        rewrite (HC f Hf); [reflexivity|].
-        apply unchanged_has_old with (cur := cur); intuition.
+    - intros f Hf Hk r. unfold bf in Hk. rewrite fold_box_keys in Hk.
+      apply orb_false_iff in Hk. destruct Hk as [Hk0 Hk1].
+      pose proof Hf as Hf'. apply memZ_In in Hf'. rewrite Hf', andb_true_r in Hk1.
+      apply memZ_false in Hk1. rewrite In_feat2filter in Hk1.
+      rewrite (unchanged_spec_feat cur old f) by intuition.
+      now apply HC.
   Qed.
 
   Lemma masks_of_keys {V} (d : list (Z * V)) (get : V -> list bool)
@@ -388,9 +426,9 @@ Section Proofs.
     unfold spec_box_row. apply forallb_subset.
     - intros f Hin. apply in_map_iff in Hin. destruct Hin as [[f' m] [<- Hin]].
       now apply HI in Hin.
-    - intros f Hf Hni. unfold spec_feat.
-      destruct (lookup f cur) as [[lo hi]|] eqn:El; [|reflexivity].
-      exfalso. apply Hni. apply has_key_In. apply HC; [assumption|congruence].
+    - intros f Hf Hni. apply HC; [assumption|].
+      destruct (has_key f bf) eqn:E; [|reflexivity].
+      exfalso. apply Hni. now apply has_key_In.
   Qed.
 
   (* ---- the polygon cache -------------------------------------------------- *)
@@ -618,20 +656,35 @@ Section Proofs.
     BoxInv (box_filters (flt w)) (old_rng (flt w)) /\
     BoxCov (box_filters (flt w)) (old_rng (flt w)) /\
     NoDup (map fst (poly_filters (flt w))) /\
-    PolyInv (poly_filters (flt w)).
+    PolyInv (poly_filters (flt w)) /\
+    (forall f, half_set (old_rng (flt w)) f = false).
 
   Notation step := (step hashf choice rows feats true).
   Notation update := (update hashf choice rows feats true).
   Notation run := (run hashf choice rows feats true).
 
-  Lemma Inv_reset c rg : Inv {| cfg := c; reg := rg; flt := reset_fstate rows |}.
+  Lemma Inv_reset c rg e :
+    Inv {| cfg := c; reg := rg; flt := reset_fstate rows; err := e |}.
   Proof.
-    repeat split; cbn.
-    - destruct H.
-    - destruct H.
-    - intros f _ H. now elim H.
+    unfold Inv. cbn. split; [|split; [|split; [|split]]].
+    - intros f m [].
+    - intros f _ _ r. reflexivity.
     - constructor.
     - intros id h m [].
+    - reflexivity.
+  Qed.
+
+  (* the application raises iff some range has exactly one of its keys *)
+  Lemma raises_iff cur old force :
+    (forall f, half_set old f = false) ->
+    existsb (half_set cur) (feat2filter true cur old force) = true
+    <-> exists f, half_set cur f = true.
+  Proof.
+    intros Ho. rewrite existsb_exists. split.
+    - intros [f [_ Hf]]. now exists f.
+    - intros [f Hf]. exists f. split; [|assumption].
+      apply In_feat2filter.
+      destruct (half_set_changed cur old f (Ho f) Hf); auto.
   Qed.
 
   Lemma update_correct w force :
@@ -639,25 +692,48 @@ Section Proofs.
     let w' := update w force in
     Inv w' /\
     cfg w' = cfg w /\ reg w' = reg w /\ manual (flt w') = manual (flt w) /\
-    a_box (flt w') = spec_box rows feats w /\
-    a_invalid (flt w') = spec_invalid rows feats w /\
-    a_polygon (flt w') = spec_polygon rows w /\
-    a_all (flt w') = spec_all choice rows feats w.
+    (err w' = true <-> exists f, half_set (rng (cfg w)) f = true) /\
+    (err w' = false ->
+     a_box (flt w') = spec_box rows feats w /\
+     a_invalid (flt w') = spec_invalid rows feats w /\
+     a_polygon (flt w') = spec_polygon rows w /\
+     a_all (flt w') = spec_all choice rows feats w).
   Proof.
-    intros [HBI [HBC [HND HPI]]].
-    destruct (box_update_inv _ (rng (cfg w)) _ force HBI HBC) as [HBI' HBC'].
-    destruct (poly_update_spec (reg w) (polys (cfg w)) _ HND HPI) as [HND' [HPI' Hpoly]].
-    pose proof (box_array_spec _ _ HBI' HBC') as Hbox.
-    cbn zeta. unfold C03.update. cbn [cfg reg flt box_filters poly_filters old_rng
-      a_all a_box a_polygon a_invalid manual].
-    split; [exact (conj HBI' (conj HBC' (conj HND' HPI')))|].
-    split; [reflexivity|]. split; [reflexivity|]. split; [reflexivity|].
-    split; [exact Hbox|]. split; [apply invalid_arr_spec|]. split; [exact Hpoly|].
-    unfold spec_all. destruct (enable (cfg w)); [|reflexivity].
-    rewrite Hbox, Hpoly, invalid_arr_spec, !band_map.
-    fold (spec_qual rows feats w).
-    destruct (0 <? limit (cfg w)) eqn:El; [|reflexivity].
-    rewrite limit_events_spec by lia. reflexivity.
+    intros [HBI [HBC [HND [HPI HOP]]]].
+    pose proof (raises_iff (rng (cfg w)) _ force HOP) as Hraise.
+    cbn zeta. unfold C03.update.
+    destruct (existsb (half_set (rng (cfg w)))
+                      (feat2filter true (rng (cfg w)) (old_rng (flt w)) force)) eqn:Eh;
+      cbn [cfg reg flt err box_filters poly_filters old_rng
+           a_all a_box a_polygon a_invalid manual].
+    - (* ValueError *)
+      split.
+      { unfold Inv. cbn [flt box_filters poly_filters old_rng].
+        split; [assumption|]. split; [assumption|].
+        split; [now apply NoDup_keys_filter|]. split; [|assumption].
+        intros id h m Hin. apply filter_In in Hin. destruct Hin as [Hin _].
+        now apply HPI in Hin. }
+      split; [reflexivity|]. split; [reflexivity|]. split; [reflexivity|].
+      split; [|discriminate]. split; [intros _; now apply Hraise|reflexivity].
+    - destruct (box_update_inv _ (rng (cfg w)) _ force HBI HBC) as [HBI' HBC'].
+      destruct (poly_update_spec (reg w) (polys (cfg w)) _ HND HPI)
+        as [HND' [HPI' Hpoly]].
+      pose proof (box_array_spec _ _ HBI' HBC') as Hbox.
+      assert (forall f, half_set (rng (cfg w)) f = false) as HOP'.
+      { intros f. destruct (half_set (rng (cfg w)) f) eqn:E; [|reflexivity].
+        assert (false = true) as Hc by (apply Hraise; now exists f).
+        discriminate Hc. }
+      split; [exact (conj HBI' (conj HBC' (conj HND' (conj HPI' HOP'))))|].
+      split; [reflexivity|]. split; [reflexivity|]. split; [reflexivity|].
+      split.
+      { split; [discriminate|]. intros [f Hf]. now rewrite HOP' in Hf. }
+      intros _.
+      split; [exact Hbox|]. split; [apply invalid_arr_spec|]. split; [exact Hpoly|].
+      unfold spec_all. destruct (enable (cfg w)); [|reflexivity].
+      rewrite Hbox, Hpoly, invalid_arr_spec, !band_map.
+      fold (spec_qual rows feats w).
+      destruct (0 <? limit (cfg w)) eqn:El; [|reflexivity].
+      rewrite limit_events_spec by lia. reflexivity.
   Qed.
 
   Lemma step_Inv w o : Inv w -> Inv (step w o).
@@ -676,17 +752,35 @@ Section Proofs.
   Lemma history rg0 ops force :
     let w := run (init_world rows rg0) ops in
     let w' := update w force in
-    a_all (flt w') = spec_all choice rows feats w /\
-    a_box (flt w') = spec_box rows feats w /\
-    a_polygon (flt w') = spec_polygon rows w /\
-    a_invalid (flt w') = spec_invalid rows feats w.
+    (err w' = true <-> exists f, half_set (rng (cfg w)) f = true) /\
+    (err w' = false ->
+     a_all (flt w') = spec_all choice rows feats w /\
+     a_box (flt w') = spec_box rows feats w /\
+     a_polygon (flt w') = spec_polygon rows w /\
+     a_invalid (flt w') = spec_invalid rows feats w).
   Proof.
     cbn zeta.
     assert (Inv (run (init_world rows rg0) ops)) as H
         by (apply run_Inv; apply Inv_reset).
-    destruct (update_correct _ force H) as [_ [_ [_ [_ [Hb [Hi [Hp Ha]]]]]]].
-    auto.
+    destruct (update_correct _ force H) as [_ [_ [_ [_ [He Hok]]]]].
+    split; [exact He|]. intros Hne.
+    destruct (Hok Hne) as [Hb [Hi [Hp Ha]]]. auto.
   Qed.
+
+  Lemma history_ok rg0 ops force :
+    let w := run (init_world rows rg0) ops in
+    let w' := update w force in
+    err w' = false ->
+    a_all (flt w') = spec_all choice rows feats w /\
+    a_box (flt w') = spec_box rows feats w /\
+    a_polygon (flt w') = spec_polygon rows w /\
+    a_invalid (flt w') = spec_invalid rows feats w.
+  Proof. exact (proj2 (history rg0 ops force)). Qed.
+
+  Lemma history_raises rg0 ops force :
+    let w := run (init_world rows rg0) ops in
+    err (update w force) = true <-> exists f, half_set (rng (cfg w)) f = true.
+  Proof. exact (proj1 (history rg0 ops force)). Qed.
 
   (* limit events: exactly min(limit, #qualifying) events remain, all of them
      qualifying *)
@@ -728,46 +822,51 @@ Section Proofs.
     let w1 := run (init_world rows rg1) ops1 in
     let w2 := run (init_world rows rg2) ops2 in
     cfg w1 = cfg w2 -> reg w1 = reg w2 -> manual (flt w1) = manual (flt w2) ->
+    err (update w1 force1) = false -> err (update w2 force2) = false ->
     a_all (flt (update w1 force1)) = a_all (flt (update w2 force2)).
   Proof.
-    cbn zeta. intros Hc Hr Hm.
-    destruct (history rg1 ops1 force1) as [H1 _].
-    destruct (history rg2 ops2 force2) as [H2 _].
-    cbn zeta in H1, H2. rewrite H1, H2. now apply spec_all_settings.
+    cbn zeta. intros Hc Hr Hm He1 He2.
+    destruct (history rg1 ops1 force1) as [_ H1].
+    destruct (history rg2 ops2 force2) as [_ H2].
+    cbn zeta in H1, H2. destruct (H1 He1) as [-> _]. destruct (H2 He2) as [-> _].
+    now apply spec_all_settings.
   Qed.
 
   Lemma history_limit rg0 ops force :
     choice_spec ->
     let w := run (init_world rows rg0) ops in
     let w' := update w force in
+    err w' = false ->
     enable (cfg w) = true -> 0 < limit (cfg w) ->
     count_true (a_all (flt w'))
     = Z.min (limit (cfg w)) (count_true (spec_qual rows feats w)) /\
     Forall2 (fun a q => a = true -> q = true)
             (a_all (flt w')) (spec_qual rows feats w).
   Proof.
-    cbn zeta. intros Hc He Hl.
-    destruct (history rg0 ops force) as [H _]. cbn zeta in H. rewrite H.
-    now apply limit_exact.
+    cbn zeta. intros Hc Hne He Hl.
+    destruct (history rg0 ops force) as [_ H]. cbn zeta in H.
+    destruct (H Hne) as [-> _]. now apply limit_exact.
   Qed.
 
   Lemma history_disabled rg0 ops force :
     let w := run (init_world rows rg0) ops in
+    err (update w force) = false ->
     enable (cfg w) = false -> a_all (flt (update w force)) = ones.
   Proof.
-    cbn zeta. intros He.
-    destruct (history rg0 ops force) as [H _]. cbn zeta in H. rewrite H.
-    now apply disabled_all.
+    cbn zeta. intros Hne He.
+    destruct (history rg0 ops force) as [_ H]. cbn zeta in H.
+    destruct (H Hne) as [-> _]. now apply disabled_all.
   Qed.
 
   Lemma history_no_limit rg0 ops force :
     let w := run (init_world rows rg0) ops in
+    err (update w force) = false ->
     enable (cfg w) = true -> limit (cfg w) <= 0 ->
     a_all (flt (update w force)) = spec_qual rows feats w.
   Proof.
-    cbn zeta. intros He Hl.
-    destruct (history rg0 ops force) as [H _]. cbn zeta in H. rewrite H.
-    now apply no_limit_all.
+    cbn zeta. intros Hne He Hl.
+    destruct (history rg0 ops force) as [_ H]. cbn zeta in H.
+    destruct (H Hne) as [-> _]. now apply no_limit_all.
   Qed.
 End Proofs.
 
@@ -800,7 +899,8 @@ Qed.
 
 (* ---- the code before the repair: the history theorem is false ----------- *)
 Definition refute_rows : list row := [ {| vals := [Fin 8]; pins := [] |} ].
-Definition refute_ops : list op := [SetRange 0 (Fin 2) (Fin 6); Apply []; DelRange 0].
+Definition refute_ops : list op :=
+  [SetMin 0 (Fin 2); SetMax 0 (Fin 6); Apply []; DelMin 0; DelMax 0].
 
 Lemma unrepaired_refuted :
   forall hashf choice,
@@ -857,9 +957,10 @@ Definition ex_rows : list row :=
     {| vals := [Fin 5; NInf];   pins := [true] |} ].
 
 Definition ex_ops : list op :=
-  [ SetRange 0 (Fin 6) (Fin 4); Apply []; AddPoly 7; SetRange 1 (Fin 0) (Fin 0);
+  [ SetMin 0 (Fin 6); SetMax 0 (Fin 4); Apply []; AddPoly 7;
+    SetMin 1 (Fin 0); Apply [] (* raises: "1 max" is missing *); SetMax 1 (Fin 0);
     Apply [1]; InvertPoly 7; EditManual 5 false; Apply []; InvertPoly 7;
-    SetLimit 2; DelRange 1; SetRange 1 NInf PInf ].
+    SetLimit 2; DelMin 1; DelMax 1; SetMax 1 PInf; SetMin 1 NInf ].
 
 (* a history whose final application selects a proper non-empty subset, with
    a reversed range, NaN, a tie with a bound, a polygon inverted twice, a
@@ -867,7 +968,27 @@ Definition ex_ops : list op :=
 Example ex_history_values :
   let w := run mk_hash first_k ex_rows [0; 1] true (init_world ex_rows [(7, (0, false))]) ex_ops in
   (enable (cfg w), limit (cfg w), spec_qual ex_rows [0; 1] w,
+   err (update mk_hash first_k ex_rows [0; 1] true w []),
    a_all (flt (update mk_hash first_k ex_rows [0; 1] true w [])))
-  = (true, 2, [false; false; false; false; true; false; true; true],
+  = (true, 2, [false; false; false; false; true; false; true; true], false,
      [false; false; false; false; true; false; true; false]).
 Proof. vm_compute. reflexivity. Qed.
+
+(* exception safety: an application that raised (half-set range) in the middle
+   of the history leaves nothing stale behind *)
+Definition exc_rows : list row :=
+  [ {| vals := [Fin 8;  Fin 1]; pins := [] |}; {| vals := [Fin 16; Fin 2]; pins := [] |};
+    {| vals := [Fin 24; Fin 4]; pins := [] |}; {| vals := [Fin 32; Fin 6]; pins := [] |} ].
+Definition exc_ops : list op :=
+  [ SetMin 0 (Fin 8); SetMax 0 (Fin 16); Apply [];
+    SetMin 0 (Fin 24); SetMax 0 (Fin 32); SetMin 1 (Fin 0); Apply [];
+    SetMin 0 (Fin 8); SetMax 0 (Fin 16); DelMin 1 ].
+
+Example exception_safe_history :
+  forall hashf choice,
+    let w1 := run hashf choice exc_rows [0; 1] true (init_world exc_rows [])
+                  (firstn 7 exc_ops) in
+    let w := run hashf choice exc_rows [0; 1] true (init_world exc_rows []) exc_ops in
+    let w' := update hashf choice exc_rows [0; 1] true w [] in
+    err w1 = true /\ err w' = false /\ a_all (flt w') = [true; true; false; false].
+Proof. intros hashf choice. vm_compute. auto. Qed.
